@@ -22,6 +22,7 @@ pub mod cmd_joypad;
 pub mod cmd_timer;
 pub mod cmd_lcd;
 pub mod cmd_dma;
+pub mod cmd_irq;
 
 fn main() {
   let args: Vec<String> = std::env::args().collect();
@@ -34,6 +35,7 @@ fn main() {
     "timer-partitions" => cmd_timer::partitions(&args[2..]),
     "lcd-trace" => cmd_lcd::trace(&args[2..]),
     "dma-trace" => cmd_dma::trace(&args[2..]),
+    "irq" => cmd_irq::run(&args[2..]),
     "version" => println!("gbv jit={}", cfg!(feature = "jit")),
     _ => { eprintln!("usage: gbv <command> ..."); std::process::exit(2); }
   }
